@@ -18,7 +18,10 @@ AtomSeq == SetToSeq(Atoms)
 Num(a) == CHOOSE n \in DOMAIN AtomSeq : AtomSeq[n] = a
 Plain == {a \in Atoms : a.fault = ""}
 External == {"doins-ext-C", "doins-ext-symmode", "doins-ext-two", "doins-ext-r", "doins-ext-badmode", "doins-ext-blocked",
-             "dodir-ext", "dodir-ext-blocked2", "keepdir-ext"}
+             "dodir-ext", "dodir-ext-blocked2", "keepdir-ext",
+             "doexe-ext-fail-ok", "doexe-ext-ok-fail", "doexe-ext-ok-fail-ok", "doexe-ext-fail-ok-ok", "doexe-ext-fail-fail",
+             "doexe-ext-ok-ok-ok", "dolib.a-ext-fail-ok", "dolib.a-ext-ok-fail", "dodir-ext-fail-ok", "dodir-ext-ok-fail",
+             "dodir-ext-ok-fail-ok", "dodir-ext-ok-ok", "keepdir-ext-fail-ok", "keepdir-ext-ok-fail"}
 First == {a \in Plain : a.nonfatal /\ (a.t.id \in External \/ ~a.t.feasible)}
 Singles == {<<Num(a), 0>> : a \in Atoms}
 Pairs == {<<Num(x[1]), Num(x[2]), 0>> : x \in {y \in First \X Plain : y[1].t.eapi = y[2].t.eapi}}
